@@ -227,3 +227,21 @@ package convert
 //@   loop 2 invariant (and (MapC<String~cty.Type>.ok om) (forall ((k String)) (! (=> (select (MapC<String~cty.Type>.dom om) k) (wf_ty (select (MapC<String~cty.Type>.val om) k))) :pattern ((select (MapC<String~cty.Type>.dom om) k)))))
 //@   loop 3 invariant (and (MapC<String~cty.Type>.ok om) (forall ((k String)) (! (=> (select (MapC<String~cty.Type>.dom om) k) (wf_ty (select (MapC<String~cty.Type>.val om) k))) :pattern ((select (MapC<String~cty.Type>.dom om) k)))))
 //@   loop 4 invariant (and (<= 0 ix) (= (Slice.off types) 0) (forall ((j Int)) (! (=> (and (trig j) (<= 0 j) (< j (Slice.len types))) (wf_ty (select tysel (+ (Slice.off types) j)))) :pattern ((trig j)))))
+//
+// Primitive conversions (C08), under what the getConversion wrapper owes them (a known, non-null, unmarked
+// value of the source type). number -> string: always succeeds with the full decimal expansion
+// big.Float.Text('f', -1) of the number (an uninterpreted function of value and precision), normalized.
+// string -> bool: "true" / "1" give true, "false" / "0" give false, anything else is an error.
+//@ func convert.init$1
+//@   tags C08
+//@   borrows path
+//@   requires (and (wf_deep val) (plain val) (is_number_ty (vty val)))
+//@   ensures[C08] text: (and (= result.1 nil.Any) (is_string_ty (vty result.0)) (plain result.0) (= (str_of result.0) (nfc (num_textf (num_i val) (num_r val) (bf.negzero (bf_of val)) (bf.prec (bf_of val)) 102 (- 1)))))
+//
+//@ func convert.init$4
+//@   tags C08
+//@   borrows path
+//@   requires (and (wf_deep val) (plain val) (is_string_ty (vty val)))
+//@   let s (str_of val)
+//@   ensures[C08] accepted: (= (= result.1 nil.Any) (or (= s "true") (= s "1") (= s "false") (= s "0")))
+//@   ensures[C08] value: (=> (= result.1 nil.Any) (and (is_bool_ty (vty result.0)) (plain result.0) (= (bool_of result.0) (or (= s "true") (= s "1")))))
